@@ -90,6 +90,9 @@ func runC16(c *Ctx) {
 			continue // shorter than the whole-input guard (finding D6) or options slack
 		}
 		plain, _ := ls.Bytes()
+		// the structure was encoded independently (harness/spec.go), without mapping slack: "identical
+		// bytes" is measured against that encoding, not against what the library made of it
+		c.Check("decrypt_encrypt_identity", bytes.Equal(plain, w), "ReadLeaseSet2 -> Bytes (plaintext of the round trip)", [][]byte{w}, "", "the LeaseSet2 to be encrypted does not serialise to its own encoding")
 		pub, priv, _ := x25519.GenerateKey(detRand{r})
 		var cookie [32]byte
 		copy(cookie[:], r.Bytes(32))
